@@ -144,6 +144,8 @@ class PathEval:
             if name == "adt":
                 name = "%s::%s" % (rv["n"], rv["vname"])
                 meta = (rv["n"], rv.get("variant", 0))
+            elif name in ("closure", "coroutine", "coroutine_closure") and rv.get("n"):
+                meta = (rv["n"], None)          # the closure's body id
             return ("agg", name, tuple(self.operand(o, env) for o in rv["ops"]), tuple(rv.get("fields") or ()), meta)
         if r == "repeat":
             return ("agg", "repeat", (self.operand(rv["o"], env),), ())
@@ -385,3 +387,19 @@ def field_chain(e):
 
 def calls_in(e, name_suffix):
     return [x for x in walk(e) if x[0] == "call" and x[1].endswith(name_suffix)]
+
+
+def closure_builds(crate, e, adt_variant_name):
+    """Does some closure that occurs in expression e (e.g. the default of ok_or_else) construct the given enum
+    variant / struct (full path `adt::Variant`)?"""
+    for x in walk(e):
+        if x[0] == "agg" and x[1] in ("closure", "coroutine_closure") and len(x) > 4 and x[4]:
+            cb = crate.bodies.get(x[4][0]) if crate is not None else None
+            if cb is None:
+                continue
+            for blk in cb.blocks:
+                for st in blk["stmts"]:
+                    if st.get("s") == "assign" and st["rv"]["r"] == "agg" and st["rv"].get("kind") == "adt" and \
+                            "%s::%s" % (st["rv"]["n"], st["rv"]["vname"]) == adt_variant_name:
+                        return True
+    return False
